@@ -70,7 +70,16 @@ func HC03_Query() {
 		x.legalStepSmall([3]int{0, 2, 8}[vChoice("op", 3)])
 	}
 	f, t := x.pickFilter("filter")
-	b := x.mkFilter(f, t)
+	relOnly := false
+	if f == fRelAT && vChoice("inner", 2) == 1 {
+		// RelationFilter{All(A), T}: the component filter also matches tables without relation.
+		// What it selects among entities without relation is not specified by the properties;
+		// decided here: Count / EntityAt / Step agree with the iteration, and among the
+		// relation-carrying entities exactly those with A and target T are visited.
+		f = fRelOnlyA
+		relOnly = true
+	}
+	b := x.mkFilter7(f, t)
 	flt := b.f
 	var cf CachedFilter
 	if vChoice("registered", 2) == 1 {
@@ -83,11 +92,33 @@ func HC03_Query() {
 			}
 		}
 	}
-	x.checkQuery(flt, f, t)
+	if !relOnly {
+		x.checkQuery(flt, f, t)
+	}
 	q := x.w.Query(flt)
 	ord, n := hOrder(&q)
-	_, want := x.matching(f, t)
-	vAssert(n == want, "iteration visits exactly the matching entities")
+	if !relOnly {
+		_, want := x.matching(f, t)
+		vAssert(n == want, "iteration visits exactly the matching entities")
+	} else {
+		for j := 0; j < x.n; j++ {
+			if !x.alive[j] || hRelOf(x.set[j]) < 0 {
+				continue
+			}
+			visited := false
+			for i := 0; i < n; i++ {
+				if ord[i] == x.h[j] {
+					visited = true
+				}
+			}
+			vAssert(visited == (x.set[j]&(1<<uA) != 0 && x.tgt[j] == t), "among relation-carrying entities a relation filter visits exactly those matching its component filter with target T")
+		}
+		for i := 0; i < n; i++ {
+			for k := i + 1; k < n; k++ {
+				vAssert(ord[i] != ord[k], "query visits no entity twice")
+			}
+		}
+	}
 	q2 := x.w.Query(flt)
 	vAssert(q2.Count() == n, "Count equals the number of entities visited")
 	mode := vChoice("mode", 2)
